@@ -42,6 +42,10 @@ def is_task_invoke(n):
 
 def run(ctx):
     fb = ctx.fb
+    # ---------------------------------------------------------------- Q1 the queue this component re-sizes keeps tickets and rounds in step
+    # (the executor's start() relies on ConcurrentBoundedQueue::reserve_and_clear; the clause is C01.R11, evaluated on the queue instantiation used here)
+    import C01 as _C01
+    _C01.geometry_rebase(ctx, "C07.Q1", fb)
     # ---------------------------------------------------------------- R1 RunnerScope
     n1 = 0
     for fn in fb.find(pred=lambda f: f.has_cfg() and f.file.endswith("/executor.cpp")):
